@@ -22,7 +22,8 @@ UN = ['neg', 'reverse', 'involute', 'conjugate']
 def floors(tier):
     return {'distinct_nontrivial': 5000 if tier == 'quick' else 80000, 'generic_add': 800, 'generic_sub': 800,
             'sub_only_b_blades': 300, 'involution_cases': 1500, 'twice_is_identity': 1000,
-            'antiautomorphism_cases': 300, 'grade_selections': 1500, 'lazy_table_cases': 50}
+            'antiautomorphism_cases': 300, 'grade_selections': 1500, 'lazy_table_cases': 50, 'number_operand_sums': 1500,
+            'grade_selections_in_registered_function': 400}
 
 
 def plan(tier, seed):
@@ -158,6 +159,27 @@ def one_pair(ctx, alg, iso, cfg, name, kx, ky, lazy):
                                   rhs=show_elem({k: rhs.get(k, 0) for k in bad[:3]}))
         elif st == 'exc':
             ctx.note_raised(out, 'automorphism')
+    # plain numbers (in particular the identities 0 and 1) on either side of + and -
+    cid = [name, 'number-add-sub', list(kx)]
+    if ctx.want(cid) and ctx.rng.random() < 0.35:
+        a_ = ops.generic_mv(alg, kx, 'a')
+        A_ = iso.mv_to_ref(a_)
+        n_ = ctx.rng.choice((0, 0.0, 1, 2, -3))
+        N_ = {0: n_}
+        forms = {'n - a': (lambda: n_ - a_, R.sub(N_, A_)), 'a - n': (lambda: a_ - n_, R.sub(A_, N_)),
+                 'n + a': (lambda: n_ + a_, R.add(N_, A_)), 'a + n': (lambda: a_ + n_, R.add(A_, N_)),
+                 'alg.sub(n, a)': (lambda: alg.sub(n_, a_), R.sub(N_, A_))}
+        for label, (f_, want_) in forms.items():
+            st, r_ = ctx.guarded(20, f_)
+            if st != 'ok':
+                if st == 'exc':
+                    ctx.note_raised(r_, 'number-add-sub')
+                continue
+            ctx.count('number_operand_sums')
+            if elem_diff(iso.mv_to_ref(r_), want_):
+                ctx.violation('sum/difference with a plain number is not blade-wise', cid + [label, str(n_)], config=cfg, form=label, number=str(n_),
+                              keys_in=[list(kx)], got=show_elem(iso.mv_to_ref(r_)), expected=show_elem(want_))
+        ctx.case(cid + [str(n_)])
     # grade selection
     d = alg.d
     a = ops.generic_mv(alg, kx, 'a')
@@ -185,3 +207,17 @@ def one_pair(ctx, alg, iso, cfg, name, kx, ky, lazy):
         if not ok:
             ctx.violation('grade-selection', cid, config=cfg, keys_in=[list(kx)], grades=list(G), form=form,
                           got=show_elem(dict(got_items)), expected=show_elem(want))
+        # the same selection written inside a registered (compiled) function
+        if G and ctx.rng.random() < 0.15:
+            ns = {}
+            exec(f'def sel_{"_".join(map(str, G))}(x):\n    return x.grade({", ".join(map(str, G))}{"," if len(G) == 1 else ""})\n', ns)
+            fn = [v for k_, v in ns.items() if k_.startswith('sel_')][0]
+            st2, r2 = ctx.guarded(20, lambda: alg.register(fn)(a))
+            if st2 == 'ok':
+                ctx.count('grade_selections_in_registered_function')
+                got2 = dict(zip(r2.keys(), r2.values()))
+                if len(r2.keys()) != len(r2.values()) or elem_diff(got2, want):
+                    ctx.violation('grade selection inside a registered function', cid + ['registered'], config=cfg, keys_in=[list(kx)], grades=list(G),
+                                  got=show_elem(got2), expected=show_elem(want), n_keys=len(r2.keys()), n_values=len(r2.values()))
+            elif st2 == 'exc':
+                ctx.note_raised(r2, 'grade-registered')
